@@ -237,35 +237,66 @@ def check_style_tables(ctx):
 
 
 def check_units(ctx):
+  """DSP-units: for each unit, the value _compute_length returns on the path taken for that unit
+  (references present) is `source.value * ref.value [/ 100]` in the units of the reference that the
+  specification assigns to the unit; root-relative units are returned unchanged."""
+  from ..rules import match
   ix = ctx.ix
   f = ix.func("ttconv.isd:_compute_length")
   ctx.unit(f.module)
   units = ix.cls(f"{SP}:LengthType.Units")
   members = [n for n, _ in ix.enum_members(units)]
-  handled = {}
-  for n in own_nodes(f.node):
-    if isinstance(n, ast.If) and isinstance(n.test, ast.Compare) and "units" in unparse(n.test.left):
-      mname = unparse(n.test.comparators[0]).split(".")[-1]
-      handled[mname] = n
-  root_relative = {"rh", "rw"}
+  src = f.params[0]
   ref_of = {"pct": f.params[1], "em": f.params[2], "c": f.params[3], "px": f.params[4]}
+  root_relative = {"rh", "rw"}
+  norm = lambda e: unparse(e).replace(" ", "")
   for u in members:
     key = f"{f.qualname}|unit {u}"
+
+    def decide(test, u=u):
+      # `<source>.units is Units.X` (through a local), `<ref> is None`
+      r = match.relation(test, lambda e: unparse(e) == f"{src}.units", lambda e: unparse(e).split(".")[-2:-1] == ["Units"])
+      if r in ("is", "==", "is not", "!="):
+        cmp_ = test
+        while isinstance(cmp_, ast.UnaryOp):
+          cmp_ = cmp_.operand
+        other = cmp_.comparators[0] if unparse(cmp_.left) == f"{src}.units" else cmp_.left
+        same = unparse(other).split(".")[-1] == u
+        return same if r in ("is", "==") else not same
+      isn = match.is_none_test(test, lambda e: isinstance(e, ast.Name) and e.id in f.params)
+      if isn is not None:
+        return not isn if False else (False if isn else True)   # references are present on the path examined
+      if isinstance(test, ast.Compare) and len(test.ops) == 1 and isinstance(test.ops[0], (ast.In, ast.NotIn)) and unparse(test.left) == f"{src}.units":
+        names = {unparse(x).split(".")[-1] for x in getattr(test.comparators[0], "elts", [])}
+        return (u in names) == isinstance(test.ops[0], ast.In)
+      raise match.PathUndecided(short(test, 60))
+    try:
+      kind, val = match.path_result(f.node, decide)
+    except match.PathUndecided as e:
+      raise AnalysisError(f"{f.qualname}: the path for unit {u} cannot be followed ({e})")
     if u in root_relative:
-      ctx.check(u not in handled, "DSP-units", key, ctx.where(f.module, f.node), "root-relative unit is returned unchanged", f"_compute_length rescales the root-relative unit {u}")
-      continue
-    n = handled.get(u)
-    if n is None:
-      ctx.bad("DSP-units", key, ctx.where(f.module, f.node), f"_compute_length has no branch for unit `{u}`: such lengths stay unresolved in the snapshot")
+      ctx.check(kind == "return" and val is not None and norm(val) == src, "DSP-units", key, ctx.where(f.module, f.node), "root-relative unit is returned unchanged",
+                f"_compute_length rescales the root-relative unit {u}: returns `{short(val) if val is not None else kind}`")
       continue
     ref = ref_of.get(u)
-    rets = [r for r in ast.walk(n) if isinstance(r, ast.Return)]
-    txt = unparse(rets[0].value) if rets else ""
-    uses_ref = ref is not None and f"{ref}.value" in txt and f"units={ref}.units" in txt.replace(" ", "")
-    div100 = ("/ 100" in txt) == (u == "pct")
-    ctx.check(uses_ref and div100 and "source_length.value *" in txt.replace(f.params[0], "source_length"), "DSP-units", key, ctx.where(f.module, n),
+    if kind != "return" or val is None or norm(val) == src:
+      ctx.bad("DSP-units", key, ctx.where(f.module, f.node), f"_compute_length has no branch for unit `{u}`: such lengths stay unresolved in the snapshot")
+      continue
+    ok = False
+    if isinstance(val, ast.Call) and unparse(val.func).endswith("LengthType"):
+      kw = {k.arg: k.value for k in val.keywords}
+      if len(val.args) == 2:
+        kw.setdefault("value", val.args[0])
+        kw.setdefault("units", val.args[1])
+      v, un = kw.get("value"), kw.get("units")
+      if v is not None and un is not None:
+        want = {f"{src}.value*{ref}.value", f"{ref}.value*{src}.value"}
+        if u == "pct":
+          want = {w + "/100" for w in want} | {f"{src}.value/100*{ref}.value", f"{src}.value*({ref}.value/100)"}
+        ok = norm(v) in want and norm(un) == f"{ref}.units"
+    ctx.check(ok, "DSP-units", key, ctx.where(f.module, f.node),
               f"{u}: value * {ref}.value{' / 100' if u == 'pct' else ''} in {ref}'s units",
-              f"unit `{u}` must resolve to source.value * {ref}.value{' / 100' if u == 'pct' else ''} in the units of {ref}; found `{short(rets[0].value) if rets else None}`")
+              f"unit `{u}` must resolve to source.value * {ref}.value{' / 100' if u == 'pct' else ''} in the units of {ref}; found `{short(val)}`")
   ctx.floor("DSP-units", "length units", len(members), 6)
 
 
